@@ -7,7 +7,7 @@ Ops (grammar in lean/BiotiteModel/Driver/C09.lean); `<head>` =
   so  <head>                    -> ok <score> | ERR:<Exc>       the score_only=True call (gapped / ungapped)
   abf <head>                    -> ok <optAffAbutFree> <optAff.semi>   affine semi-global cases: the Lean recursions vs the
                                    independent Python recursion (abutting allowed at free terminal gaps / never)
-  chk <head> <score> <traces>   -> ok n=<n> sound=<k> abutfree=<c>   the verified checker `checkResult` on EVERY returned trace;
+  chk <head> <score> <traces>   -> ok n=<n> sound=<k> abutfree=<c> distinct=<0|1>   the verified checker `checkResult` on EVERY returned trace;
                                    c = affine semi-global traces whose completion abuts a free terminal gap (class affAbutFree)
 
 The `chk` line carries the ACTUAL output of the heuristic: `run_impl` rewrites it in place before the runner hands
@@ -29,8 +29,9 @@ RULE = ("seeded sequence pairs as in C08 (length 0-8 quick, a few long ones > IN
         "align_banded (bands in any order, partly or wholly outside the table, width 1 .. full; local and semi-global), "
         "align_local_gapped (seeds everywhere incl. borders, thresholds 0 .. cannot-bind, directions both/upstream/downstream, "
         "max_number, max_table_size, score_only) and align_local_ungapped (same seeds/thresholds/directions, score_only), plus "
-        "X-drop boundary cases (a mismatch run whose drop equals the threshold +-1 followed by recovery) and seeds taken from "
-        "an optimal local alignment.  "
+        "X-drop boundary cases (a mismatch run whose drop equals the threshold +-1 followed by recovery), seeds taken from "
+        "an optimal local alignment, and regions engineered to hold the maximum score in several cells reached by traces of "
+        "different lengths with max_number in {2,5,50} (every returned alignment checked, pairwise distinct).  "
         "Each heuristic's score is compared with the executable Lean model (bandedFill / regionAlign / xdropExtend), and every "
         "returned trace goes through the verified checker `checkResult`.  Oracle: validity, rescoring from the trace "
         "(completed by the unaligned ends for semi-global), band / seed / direction containment, score_only equality, "
@@ -284,7 +285,7 @@ def run_impl(case):
                 rows = [(int(i), int(j)) for i, j in t]
                 if not check_trace(rows, n_, m_) and not no_abut(complete(rows, n_, m_)):
                     ab += 1
-        out.append(f"ok n={len(res)} sound={k} abutfree={ab}")
+        out.append(f"ok n={len(res)} sound={k} abutfree={ab} distinct=1")
     else:
         out.append(out[0])
     return out
@@ -528,6 +529,10 @@ def oracle(case):
                     v.append((tag + "/direction", f"downstream result starts before the seed: {rows}; {_brief(c)}"))
             if k == "ungapped" and any(i < 0 or j < 0 for i, j in rows):
                 v.append((tag + "/gap-in-ungapped", f"ungapped result contains a gap: {rows}"))
+    if k != "banded":
+        ne = [tuple(map(tuple, t)) for _, t in res if len(t)]
+        if len(set(ne)) != len(ne):
+            v.append((tag + "/duplicate-traces", f"returned alignments are not pairwise distinct; {_brief(c)}"))
     # score_only
     if k != "banded":
         try:
@@ -948,10 +953,8 @@ def _xdrop_edge(rng):
     return c
 
 
-def _multi_end(rng):
-    """gapped extension with SEVERAL co-optimal end cells per region and traces of different lengths: low-complexity
-    sequences / repeats (a = x*k, b = x*m, a few edits), match >> |gap| so that a shorter and a longer alignment tie
-    (cheap gaps), or +-1 matrices; max_number > 1 so that every start cell / branch is returned"""
+def _multi_end_random(rng):
+    """low-complexity sequences / repeats with cheap gaps or +-1 matrices (co-optimal cells arise by chance)"""
     k = rng.randint(2, 3)
     if rng.random() < 0.5:
         unit = [rng.randrange(k) for _ in range(rng.randint(1, 2))]
@@ -961,29 +964,70 @@ def _multi_end(rng):
             for _ in range(rng.randint(0, 2)):
                 seq_[rng.randrange(len(seq_))] = rng.randrange(k)
     else:
-        a = [rng.randrange(2) for _ in range(rng.randint(3, 5))]
+        a = [rng.randrange(2) for _ in range(rng.randint(3, 6))]
         b = [rng.randrange(2) for _ in range(rng.randint(5, 9))]
     if rng.random() < 0.5:
         a, b = b, a
-    style = rng.random()
-    if style < 0.6:       # cheap gaps: one match pays for several gap columns
+    if rng.random() < 0.6:
         mt, mm = rng.choice([2, 3, 5]), rng.choice([-4, -3, -1])
         gap = rng.choice([[-1], [-2], [-2], [-1, -1], [-2, -1], [-3, -1]])
-    else:                 # +-1
+    else:
         mt, mm = 1, rng.choice([-1, -1, 0])
         gap = rng.choice([[-1], [-1], [-2], [-1, -1]])
     M = [[mt if i == j else mm for j in range(k)] for i in range(k)]
     d = rng.choice(["downstream", "upstream", "both", "both"])
     n, m = len(a), len(b)
+    seed = [rng.randrange(n), rng.randrange(m)]
     if d == "downstream":
         seed = [rng.randint(0, min(1, n - 1)), rng.randint(0, min(1, m - 1))]
     elif d == "upstream":
         seed = [n - 1 - rng.randint(0, min(1, n - 1)), m - 1 - rng.randint(0, min(2, m - 1))]
+    return {"kind": "gapped", "a": a, "b": b, "M": M, "w1": rng.choice(["u8", "u8", "u16"]), "w2": "u8",
+            "max": rng.choice([2, 5, 20, 50]), "gap": gap, "seed": seed, "thr": rng.choice([3, 8, 20, HUGE, HUGE]), "dir": d}
+
+
+def _multi_end(rng):
+    """gapped extension whose region table holds the maximum score in SEVERAL cells reached by traces of DIFFERENT
+    lengths, with max_number > 1 so that every start cell / branch is returned.  Engineered: in the region
+    x = A B D, y = A A D A.. B  the path  A/A, r gaps, B/B  (ends in cell (2, r+2), r+2 columns) ties with
+    A/A, B/A, D/D  (cell (3, 3), 3 columns) when mismatch = cost of a gap run of length r; the row-major earlier
+    start cell has the LONGER trace.  Placed downstream and/or (reversed) upstream of the seed, either sequence
+    in either role; the rest are random low-complexity inputs."""
+    if rng.random() < 0.35:
+        c = _multi_end_random(rng)
+        c["ops"] = _ops(c)
+        return c
+    r = rng.choice([2, 2, 3])
+    if rng.random() < 0.6:
+        g = rng.choice([-1, -2])
+        gap, mm = [g], r * g
     else:
-        seed = [rng.randrange(n), rng.randrange(m)]
+        go, ge = rng.choice([(-2, -1), (-3, -1), (-2, -2), (-1, -1)])
+        gap, mm = [go, ge], go + (r - 1) * ge
+    mt = -mm + rng.randint(1, 3)
+    A, B, D = rng.sample([0, 1, 2], 3)
+    M = [[mt if i == j else mm for j in range(3)] for i in range(3)]
+
+    def region():
+        # x = A B D, y = A C D C.. B with C != B, D:  A/A B/C D/D (cell (3,3)) ties with A/A, r gaps, B/B (cell (2, r+2))
+        C = A
+        x = [A, B, D] + [rng.choice([A, B])] * rng.randint(0, 1)
+        y = [A, C, D] + [C] * (r - 2) + [B]
+        return (x, y) if rng.random() < 0.5 else (y, x)
+    d = rng.choice(["downstream", "upstream", "both", "both"])
+    up = region() if d != "downstream" else ([], [])
+    down = region() if d != "upstream" else ([], [])
+    s_sym = rng.choice([A, B])
+    a = up[0][::-1] + [s_sym] + down[0]
+    b = up[1][::-1] + [s_sym] + down[1]
+    if d == "downstream" and rng.random() < 0.4:      # something in front of the seed that must not be touched
+        a, b = [D] + a, [B] + b
+        seed = [1, 1]
+    else:
+        seed = [len(up[0]), len(up[1])]
     c = {"kind": "gapped", "a": a, "b": b, "M": M, "w1": rng.choice(["u8", "u8", "u16"]), "w2": "u8",
-         "max": rng.choice([2, 5, 20, 50]), "gap": gap,
-         "seed": seed, "thr": rng.choice([3, 8, HUGE, HUGE, HUGE]), "dir": d}
+         "max": rng.choice([2, 5, 50]), "gap": gap, "seed": seed,
+         "thr": rng.choice([2 * mt, 3 * mt, HUGE, HUGE]), "dir": d}
     c["ops"] = _ops(c)
     return c
 
